@@ -21,7 +21,7 @@ import numpy as np
 from hypothesis import strategies as st
 
 from .. import arrays as A
-from ..core import MachineSpec, Reject, SubCheck, Violation, rejecting, rel_err
+from ..core import MachineSpec, dict_strategy, Reject, SubCheck, Violation, rejecting, rel_err
 from ..oracle import StateVector, controlled, embed, ptrace
 
 RULE = ("gate table: all registered labels x boundary/random parameters (exhaustive over the vocabulary); histories: <=14/24 "
@@ -218,7 +218,7 @@ CLASSES = {
 
 
 def make_init(cls):
-    return st.fixed_dictionaries({
+    return dict_strategy({
         "N": st.integers(2, 5), "contract": st.integers(0, 10), "tags_rounds": st.booleans(),
         "lazy_every": st.integers(1, 3), "lazy_method": st.sampled_from(["direct", "dm", "zipup"]),
     })
